@@ -767,7 +767,10 @@ def run_iofault(case):
     viol, stats = [], {}
     base_ids = _st.get("base_dul_view") or dul_view(_st["base"])
     _st["base_dul_view"] = base_ids
-    FOPS = {"write", "flush", "fsync", "chmod", "rename", "replace", "creat", "open-w", "close-w", "remove", "truncate", "mkdir", "utime", "link"}
+    # "write-buffered" = a write() call that only reaches the user-space buffer: failing it stands for the buffer filling up at that very
+    # call (large files) - the error then surfaces inside the writer routine, not only at close()
+    FOPS = {"write", "write-buffered", "flush", "fsync", "chmod", "rename", "replace", "creat", "open-w", "close-w", "remove", "truncate", "mkdir",
+            "utime", "link"}
 
     def one(fault_at, kind):
         d = fresh_store()
